@@ -79,7 +79,7 @@ def run(ctx):
         if sv == "0":
             hist["served:missing"] += 1
             c.add_violation(ctx, "published-misses-signing-key:" + cur_reset,
-                            "after %r ... %r the server signs with a key that /public/sshca or the JWKS document does not carry (%s)" % (cur_reset, o, a),
+                            "after %r ... %r the server signs with a key that /public/sshca, the JWKS document or /public/x509ca does not carry (%s)" % (cur_reset, o, a),
                             {"ops": [cur_reset, o], "impl": a})
         elif sv == "1":
             hist["served:all-signing-keys"] += 1
@@ -99,9 +99,38 @@ def run(ctx):
             if f[0] != "1" or f[1] != "0" or f[2:] != ["0", "1", "1", "2", "2", "1"]:
                 c.add_violation(ctx, "race:" + o, "concurrent injections: %s (want exactly one 200, no bad response, one ready signal)" % a,
                                 {"op": o, "impl": a})
+    # 4. the real daemon binary (built from the working tree), observed from outside
+    n_daemon = 1 if ctx.quick() else 3
+    dimpl, dlog, drc = c.run_harness(ctx, "cmd/keymasterd", "C09Daemon", ["daemon"] * n_daemon, timeout=1200, tag="d")
+    dmodel = c.run_driver(ctx, "model", ["daemon"])[0]
+    if drc != 0 or len(dimpl) != n_daemon:
+        ctx.broken.append("daemon harness TestVerifC09Daemon did not complete (exit %d, %d/%d lines)" % (drc, len(dimpl), n_daemon))
+    for a in dimpl:
+        if a.startswith("skipped"):
+            hist["daemon:skipped"] += 1
+            ctx.notes.append("real-daemon probe skipped: " + a)
+            continue
+        hist["daemon:" + ("as-model" if a == dmodel else "DIFFERS")] += 1
+        ph = [x.strip() for x in a.split("|")]
+        if a.startswith("harness-error") or len(ph) != 3:
+            ctx.broken.append("real-daemon probe: %r" % a[:600])
+            continue
+        kv = [dict(x.split("=", 1) for x in p_.split()[1:] if "=" in x) for p_ in ph]
+        # judge (the property's text): while sealed — before and after a wrong passphrase — nothing reports ready and the
+        # service port serves nothing; the wrong passphrase is refused; the right one unseals
+        for name, d in (("sealed", kv[0]), ("after-wrong-passphrase", kv[1])):
+            if d.get("readyz") == "200" or d.get("readiness") == "200" or d.get("service") == "open":
+                c.add_violation(ctx, "daemon-ready-while-sealed:" + name,
+                                "the real daemon, %s: %s (readiness routes must report not-ready and the service port must not serve)" % (name, ph[0] if name == "sealed" else ph[1]),
+                                {"op": "daemon", "impl": a, "model": dmodel})
+        if kv[1].get("inject", "").startswith("2"):
+            c.add_violation(ctx, "daemon-unsealed-by-wrong-passphrase", "the real daemon acknowledged a wrong passphrase: " + ph[1],
+                            {"op": "daemon", "impl": a, "model": dmodel})
+        if a != dmodel and not any(v["key"].startswith("daemon-") for v in ctx.violations):
+            ctx.broken.append("correspondence real daemon vs KM.Seal (main() wiring): impl=%r model=%r" % (a, dmodel))
     ctx.coverage.update({
         "evaluations": len(ops), "distinct_nontrivial": len(set(ops[:n_sealed])) + unsealed_seqs,
-        "rule": "every registered handler (route table regenerated from main()) served with Signer=nil under recover() for generated request shapes incl. valid pre-minted sessions; random injection sequences from empty and pre-loaded keymaster_public_keys lists (no TLS / no verified chain / missing field / 10 passphrases incl. near misses) with readiness and a guarded route observed after each step, compared step by step with KM.Seal, /public/sshca and JWKS read back after every step; concurrent injection+request races; non-trivial = distinct sealed probes + sequences that unsealed",
+        "rule": "every registered handler (route table regenerated from main()) served with Signer=nil under recover() for generated request shapes incl. valid pre-minted sessions; random injection sequences from empty and pre-loaded keymaster_public_keys lists (no TLS / no verified chain / missing field / 10 passphrases incl. near misses) with readiness and a guarded route observed after each step, compared step by step with KM.Seal, /public/sshca and JWKS read back after every step; concurrent injection+request races; the real daemon binary built from the working tree, started sealed from a generated configuration and probed over TLS (readyz, readiness, service port) before and after a wrong and the right passphrase; non-trivial = distinct sealed probes + sequences that unsealed",
         "routes_probed_sealed": len(routes), "outcome_histogram": dict(hist),
         "seal_facts": {k: v for k, v in facts.get("c09", {}).items() if k != "routes"},
         "samples": [{"op": o, "impl": a} for o, a in list(zip(ops, impl))[:3] + list(zip(ops, impl))[n_sealed:n_sealed + 6]],
